@@ -203,6 +203,11 @@ def resolve_cfg(text, features):
                     j = c.close(j + 1) + 1
                 e = thing_end(c, j)
                 edit = (c.pos(k), c.end(e - 1), ""); break
+            if c.t(k) == "cfg" and c.t(k + 1) == "!" and c.t(k + 2) == "(" and c.t(k - 1) not in ("::", "."):
+                # the cfg!(..) macro is a constant for a given feature set (left to rustc it would be evaluated against the
+                # VERIFIER's configuration, which has none of the crate's features)
+                val = eval_cfg(c, k + 3, c.close(k + 2), features)
+                edit = (c.pos(k), c.end(c.close(k + 2)), "true" if val else "false"); break
         if edit is None:
             return text
         text = apply_edits(text, [edit])
